@@ -73,25 +73,30 @@ Proof.
   rewrite app_assoc. apply skipnN_app_len.
 Qed.
 
-Theorem derive_enum_marshal_variant be k p c : len (to_str (case_ty k)) <= 255 -> pay_matches k p = true ->
+Lemma mctx_eta c : {| mbuf := mbuf c; mfds := mfds c |} = c.
+Proof. destruct c; reflexivity. Qed.
+
+(* no hypothesis on the length: beyond 255 bytes both refuse and leave the context as it was *)
+Theorem derive_enum_marshal_variant be k p c : pay_matches k p = true ->
   derive_case_marshal be k p c = marshal_t be (VVariant (case_ty k) (payload_val p)) c.
 Proof.
-  intros Hl Hp. destruct k as [r|named rs], p as [v|vs]; try discriminate Hp; cbn [derive_case_marshal payload_val].
-  - cbn [marshal_t]. unfold case_ty, case_rty in *.
-    destruct (N.ltb_spec 255 (len (to_str (sig_r r)))) as [|_]; [lia|]. reflexivity.
+  intros Hp. destruct k as [r|named rs], p as [v|vs]; try discriminate Hp; cbn [derive_case_marshal payload_val].
+  - reflexivity.
   - cbv zeta. pose proof (case_sig_str_ty (CFields named rs)) as Es. unfold case_sig_str in Es.
     set (s := to_str (case_ty (CFields named rs))) in *.
     replace (mbuf c ++ [0] ++ [c_lpar] ++ flat_map sig_str_r rs ++ [c_rpar] ++ [0])
       with (mbuf c ++ [0] ++ (s ++ [0])) by (rewrite <- Es, <- !app_assoc; reflexivity).
-    rewrite set_byte_at.
     replace (len (mbuf c ++ [0] ++ s ++ [0]) - len (mbuf c) - 2) with (len s)
       by (rewrite !len_app; change (len [0]) with 1; lia).
-    rewrite (derive_struct_marshal_tuple be (map (marshal_t be) vs) vs).
-    2:{ clear. induction vs as [|v vs IH]; cbn [map]; constructor; auto. }
     change (marshal_t be (VVariant (case_ty (CFields named rs)) (VStruct vs)) c)
       with (if 255 <? len s then (c, false)
             else marshal_t be (VStruct vs) {| mbuf := write_signature s (mbuf c); mfds := mfds c |}).
-    destruct (N.ltb_spec 255 (len s)) as [|_]; [lia|]. reflexivity.
+    destruct (N.ltb_spec 255 (len s)) as [_|_].
+    + rewrite firstnN_app_len. now rewrite mctx_eta.
+    + rewrite set_byte_at.
+      rewrite (derive_struct_marshal_tuple be (map (marshal_t be) vs) vs).
+      2:{ clear. induction vs as [|v vs IH]; cbn [map]; constructor; auto. }
+      reflexivity.
 Qed.
 
 Lemma type_ok_validate t : type_ok t = true -> is_ok (validate_signature (to_str t)) = true.
@@ -204,6 +209,13 @@ Proof. reflexivity. Qed.
 Lemma set_off_eq c a b : a = b -> set_off c a = set_off c b.
 Proof. now intros ->. Qed.
 
+(* leave_container after enter_container: the depth is what it was; the cursor stays where sub_context put it *)
+Lemma leave_entered buf o nf d o' :
+  u_leave (set_off {| ubuf := buf; uoff := o; unfds := nf; udepth := d + 1 |} o') = {| ubuf := buf; uoff := o'; unfds := nf; udepth := d |}.
+Proof. unfold u_leave, set_off. cbn [ubuf uoff unfds udepth]. f_equal. lia. Qed.
+Lemma set_off_build c o : set_off c o = {| ubuf := ubuf c; uoff := o; unfds := unfds c; udepth := udepth c |}.
+Proof. reflexivity. Qed.
+
 (** *** no case has the variant's type *)
 Theorem derive_enum_miss vf be cs c t v : at_variant be c t v ->
   Forall (fun k => case_ty k <> t) cs ->
@@ -222,11 +234,11 @@ Proof.
   unfold sig_macro_unmarshal. rewrite Hrs. cbn [bind fst snd]. rewrite (parse_description_single _ Hok). cbn [bind].
   rewrite (sig_cases_miss _ _ _ _ _ _ Hcs). cbn [bind].
   set (c1 := set_off c (uoff c + (len (to_str t) + 2))).
-  rewrite (u_enter_ok c1) by exact Hd. cbn [bind udepth set_off uoff ubuf c1].
+  rewrite (u_enter_ok c1) by exact Hd. cbn [bind udepth set_off uoff ubuf unfds c1].
   rewrite (validate_complete_gen be v t (udepth c + 1) _ (ubuf c) 66%nat Hwt Hev Hb (fuel_ok_66 _)). cbn [bind].
   pose proof (has_at_bound _ _ _ Hb) as Hbound.
-  rewrite u_sub_ok by (cbn [set_off uoff ubuf]; exact Hbound). cbn [bind snd].
-  unfold after_variant. rewrite Hlen. subst c1. rewrite set_off_set_off. cbn [set_off uoff]. do 2 f_equal. apply set_off_eq. lia.
+  rewrite u_sub_ok by (cbn [uoff ubuf]; exact Hbound). cbn [bind snd uoff].
+  rewrite leave_entered. unfold after_variant. rewrite Hlen, set_off_build. do 3 f_equal. lia.
 Qed.
 
 Theorem var_macro_miss vf be cs c t v : at_variant be c t v ->
@@ -234,7 +246,8 @@ Theorem var_macro_miss vf be cs c t v : at_variant be c t v ->
   exists sub, var_macro_unmarshal vf be cs c = Ok (ECatchVar t sub, after_variant be c t v)
     (* the sub-context stands at the (aligned) value and ends where the value ends *)
     /\ has_at (ubuf sub) (uoff sub) (spec_enc be (uoff sub) v) /\ len (ubuf sub) = uoff sub + len (spec_enc be (uoff sub) v)
-    /\ unfds sub = unfds c /\ udepth sub = udepth c
+    (* it was split off inside the variant: one level deeper than the enum itself *)
+    /\ unfds sub = unfds c /\ udepth sub = udepth c + 1
     /\ uoff sub = uoff c + (len (to_str t) + 2) + padlen (align t) (uoff c + (len (to_str t) + 2)).
 Proof.
   intros Hav Hcs. destruct (at_variant_parts _ _ _ _ Hav) as (Hd & Hok & Hrs & Hev & Hb & Hlen).
@@ -249,10 +262,11 @@ Proof.
   rewrite <- (encodable_align be v t o1 (udepth c + 1) Hwt) in Hev. fold o2 in Hev.
   rewrite (validate_complete_gen be v t (udepth c + 1) o2 (ubuf c) 66%nat Hwt Hev Hb2 (fuel_ok_66 _)). cbn [bind].
   pose proof (has_at_bound _ _ _ Hb2) as Hbound.
-  rewrite u_sub_ok by (cbn [uoff ubuf]; exact Hbound). cbn [bind fst snd uoff ubuf unfds udepth set_off].
+  rewrite u_sub_ok by (cbn [uoff ubuf]; exact Hbound). cbn [bind fst snd uoff ubuf unfds udepth].
+  rewrite leave_entered.
   eexists. split.
   { apply f_equal. apply f_equal2; [reflexivity|].
-    rewrite !set_off_set_off. unfold after_variant. apply set_off_eq.
+    unfold after_variant. rewrite set_off_build. f_equal.
     rewrite Hlen, (spec_enc_align be v t o1 Hwt), len_app, len_zeros. fold o2. lia. }
   cbn [ubuf uoff unfds udepth]. repeat split.
   - apply has_at_clip; [exact Hb2|lia].
